@@ -108,7 +108,7 @@ namespace
   }
 
   // ---------------- plume ----------------
-  const std::vector<uint64_t> PLUME_RADIX = {3, 3, 4, 6, 3, 5, 3, 2, 4};
+  const std::vector<uint64_t> PLUME_RADIX = {3, 3, 4, 8, 3, 5, 3, 2, 4};
   struct Plume
   {
     bool sph;
@@ -128,7 +128,7 @@ namespace
     p.a = {A[d[1]][0], A[d[1]][1]};
     const double E[4][2] = {{0,0},{0.6,0.6},{0,0.8},{0.8,0.6}};
     p.e = {E[d[2]][0], E[d[2]][1]};
-    const double Rr[6][2] = {{0,0},{45,45},{0,90},{350,10},{10,350},{30,80}};
+    const double Rr[8][2] = {{0,0},{45,45},{0,90},{350,10},{10,350},{30,80},{10,130},{170,40}};   // (the last two: more than a quarter turn between two sections)
     p.rot = {Rr[d[3]][0], Rr[d[3]][1]};
     if (d[4] == 1) { p.depths.resize(1); p.c.resize(1); p.a.resize(1); p.e.resize(1); p.rot.resize(1); }
     if (d[4] == 2)
